@@ -224,6 +224,12 @@ def run(ctx):
             d = dict(data)
             d["finding_key"] = "c11:corpus:" + os.path.basename(path)
             ctx.violation("corpus schedule %s violates C11 on the real generated module" % os.path.basename(path), d)
+    # 2b search mode only (a proof or tie is broken): a flood scenario -- one producer with a long script whose events trigger
+    # follow-up events from inside callbacks, main first: exposes capacity-dependent behaviour (e.g. a bounded queue)
+    if ctx.broken:
+        flood(ctx, m0)
+        if ctx.violations:          # a concrete failing run is what the search is for
+            return
     # 2 the generated module carries the template's skeleton (all Trigger methods), for random tables
     rng = ctx.rng
     n_mach = ctx.budget(12, 60)
@@ -247,12 +253,8 @@ def run(ctx):
             style = rng.choice(["uniform", "sticky", "starve_worker", "main_first"])
             if not one_case(ctx, m, scripts, style, rng.randint(0, 80), tsk, rng):
                 break
-            if len(ctx.violations) >= 8:      # enough concrete failing inputs: stop searching
+            if len(ctx.violations) >= (4 if ctx.broken else 8):      # enough concrete failing inputs: stop searching
                 return
-    # 2b search mode only (a proof or tie is broken): a flood scenario -- one producer with a long script whose events trigger
-    # follow-up events from inside callbacks, main first: exposes capacity-dependent behaviour (e.g. a bounded queue)
-    if ctx.broken:
-        flood(ctx, m0)
     # 3 all schedules with few preemptions on small scenarios
     exhaustive(ctx, m0, tsk)
 
